@@ -141,6 +141,7 @@ def scriptedHook (id phase outcome : String) (edit : Option (Fin 16 × BitVec 64
     | none => s1
   match outcome with
   | "error" => .err s2
+  | "errorempty" => .err s2
   | "stoperror" => .err { s2 with finished := true }
   | "handled" => .ok .handled s2
   | "stop" => .ok .unhandled { s2 with finished := true }
